@@ -57,7 +57,7 @@ func (m *MethodScope) resolveVarNameConflict(suggested string) string {
 			conflict, _ := m.searchVar(suggested)
 			conflict.Name += "1"
 			m.conflicted[suggested] = true
-			n++
+			continue
 		}
 		return suggested + strconv.Itoa(n)
 	}
